@@ -57,6 +57,11 @@ Theorem C08_rect_spec : forall (T : Type) (K : ops T), ordfield K ->
                  rect_post K A e (mc A + Z.to_nat dr_min) (rect_hi A dr_max) I B st.
 Proof. exact @rect_spec. Qed.
 
+(* the hypothesis on e above follows from e >= 1 *)
+Theorem C08_one_le_sq : forall (T : Type) (K : ops T), ordfield K ->
+  forall e, oleb K (o1 K) e = true -> oleb K (o1 K) (omul K e e) = true.
+Proof. exact @one_le_sq. Qed.
+
 (* pinned code: on every run in which each selected residual is positive it returns exactly what the repaired
    code returns, so C08_rect_spec transfers (distinct rows under the hypothesis F[argmax] > 0) *)
 Theorem C08_rect_pinned_agrees : forall (T : Type) (K : ops T), ordfield K ->
